@@ -173,6 +173,7 @@ func init() {
 		c10cmpOps(w, "numberFormat", "hoursHandler", "hoursHandlerCmps")
 		c10strLits(w, "numberFormat", "currencyLanguageHandler", "currencyLanguageStrs")
 		c10apFmts(w)
+		c10langTables(w)
 		w.WriteString("\n")
 	})
 }
@@ -264,4 +265,98 @@ func c10sel(e ast.Expr) (string, bool) {
 		return "", false
 	}
 	return x.Name + "." + s.Sel.Name, true
+}
+
+// c10langTables: the id -> code maps of langNumFmt per language, and the literals of the functions
+// that resolve a number format id to a code (isLangNumFmt ranges, langNumFmtFunc* ranges and
+// defaults, applyBuiltInNumFmt's ids 14 / 22).
+func c10langTables(w *bytes.Buffer) {
+	w.WriteString("\n/-! id resolution: language tables and the literals of the resolving functions -/\n")
+	e := constExpr("langNumFmt")
+	cl, ok := e.(*ast.CompositeLit)
+	if !ok {
+		fail("langNumFmt table")
+		return
+	}
+	type kv struct {
+		k int
+		v string
+	}
+	langs := map[string][]kv{}
+	for _, el := range cl.Elts {
+		p, ok := el.(*ast.KeyValueExpr)
+		if !ok {
+			fail("langNumFmt element")
+			continue
+		}
+		kl, ok1 := p.Key.(*ast.BasicLit)
+		vl, ok2 := p.Value.(*ast.CompositeLit)
+		if !ok1 || !ok2 {
+			fail("langNumFmt element %s", src(p.Key))
+			continue
+		}
+		var kvs []kv
+		for _, e2 := range vl.Elts {
+			q, ok := e2.(*ast.KeyValueExpr)
+			if !ok {
+				continue
+			}
+			a, ok1 := q.Key.(*ast.BasicLit)
+			b, ok2 := q.Value.(*ast.BasicLit)
+			if !ok1 || !ok2 {
+				fail("langNumFmt entry %s", src(e2))
+				continue
+			}
+			k, _ := strconv.Atoi(a.Value)
+			kvs = append(kvs, kv{k, unq(b.Value)})
+		}
+		sort.Slice(kvs, func(i, j int) bool { return kvs[i].k < kvs[j].k })
+		langs[unq(kl.Value)] = kvs
+	}
+	for _, name := range []string{"ja-jp", "ko-kr", "zh-cn", "zh-tw"} {
+		kvs, ok := langs[name]
+		if !ok {
+			fail("langNumFmt[%s]", name)
+		}
+		fmt.Fprintf(w, "def langNumFmt_%s : List (Nat × String) := [\n", strings.ReplaceAll(name, "-", "_"))
+		for i, p := range kvs {
+			sep := ","
+			if i == len(kvs)-1 {
+				sep = ""
+			}
+			fmt.Fprintf(w, "  (%d, %s)%s\n", p.k, leanStr(p.v), sep)
+		}
+		w.WriteString("]\n")
+	}
+	c10intLits(w, "", "isLangNumFmt", "isLangNumFmtInts")
+	c10intLits(w, "File", "langNumFmtFuncEnUS", "langEnUSInts")
+	c10strLits(w, "File", "langNumFmtFuncEnUS", "langEnUSStrs")
+	c10intLits(w, "File", "langNumFmtFuncJaJP", "langJaJPInts")
+	c10intLits(w, "File", "langNumFmtFuncKoKR", "langKoKRInts")
+	c10intLits(w, "File", "langNumFmtFuncZhCN", "langZhCNInts")
+	c10intLits(w, "File", "langNumFmtFuncZhTW", "langZhTWInts")
+	c10intLits(w, "File", "applyBuiltInNumFmt", "applyBuiltInInts")
+	c10strLits(w, "File", "applyBuiltInNumFmt", "applyBuiltInStrs")
+	// CultureName enumeration order
+	var cult []string
+	for _, f := range files {
+		for _, d := range f.Decls {
+			gd, ok := d.(*ast.GenDecl)
+			if !ok || gd.Tok != token.CONST {
+				continue
+			}
+			for i, sp := range gd.Specs {
+				vs := sp.(*ast.ValueSpec)
+				if len(vs.Names) == 1 && vs.Names[0].Name == "CultureNameUnknown" && i == 0 {
+					for _, sp2 := range gd.Specs {
+						cult = append(cult, leanStr(sp2.(*ast.ValueSpec).Names[0].Name))
+					}
+				}
+			}
+		}
+	}
+	if len(cult) == 0 {
+		fail("CultureName enumeration")
+	}
+	fmt.Fprintf(w, "def cultureNames : List String := [%s]\n", strings.Join(cult, ", "))
 }
